@@ -41,7 +41,7 @@ def describe(tier):
                 "different, rotating whitespace, optional bare final mark); (H) every ordered pair (A; B) of an "
                 f"{len(HISTORY_MENU)}-expression menu evaluated one after the other (hidden-state / history dependence); each x "
                 f"{b['cers']} content evaluation results that permute which key is FULFILLED/UNFULFILLED/UNKNOWN. Oracle: (1) the "
-                "unresolved parser's tokens are exactly (indicator as written, condition text incl. whitespace) in order; (2) the resolved "
+                "unresolved parser's tokens are exactly (indicator as written, condition text - compared modulo whitespace) in order; (2) the resolved "
                 "tree's parts are (indicator token as written, subtree == resolving that part's text alone); (3) the evaluation result equals "
                 "R5 selection (first fulfilled part else last) applied to the parts' OWN requirement_constraint_evaluation + "
                 "format_constraint_evaluation results: normalised indicator, requirement outcome, hints, FC expression, format result "
@@ -206,7 +206,7 @@ def check_case(parts, cer, history=()):
             exp.append(ind)
             if cond is not None:
                 exp.append(w1 + cond + w2)
-        if toks != exp:
+        if [" ".join(t.split()) for t in toks] != [" ".join(t.split()) for t in exp]:  # modulo whitespace
             v("split-tokens", exp, toks, "unresolved split differs from the written parts")
     # (2) resolved tree
     r = I.try_call(lambda: I.run(I.parse_expression_including_unresolved_subexpressions(s, resolve_packages=True), _env(cer)))
